@@ -1,15 +1,9 @@
-use quote::ToTokens;
 use syn::{spanned::Spanned, Meta};
 
 #[inline]
 pub(crate) fn union_without_unsafe(meta: &Meta) -> syn::Error {
-    let mut s = meta.into_token_stream().to_string();
-
-    match s.len() {
-        4 => s.push_str("(unsafe)"),
-        6 => s.insert_str(5, "unsafe"),
-        _ => unreachable!(),
-    }
+    // `unsafe` is the only parameter that the `Hash` attribute of a union accepts
+    let s = "Hash(unsafe)";
 
     syn::Error::new(
         meta.span(),
